@@ -67,6 +67,10 @@ type BloomSearchEngine struct {
 	started bool
 	stopped bool
 
+	// workersOnce guards the one-time launch of the ingest and flush workers
+	// (see startWorkers).
+	workersOnce sync.Once
+
 	// mergeMu makes Merge single-flight in-process (see ErrMergeInProgress).
 	mergeMu sync.Mutex
 
@@ -256,9 +260,19 @@ func (b *BloomSearchEngine) Start() {
 	}
 	b.started = true
 
-	b.wg.Add(2)
-	go b.ingestWorker()
-	go b.flushWorker()
+	b.startWorkers()
+}
+
+// startWorkers launches the ingest and flush workers exactly once. Start
+// calls it; Stop calls it too, so that requests accepted by an engine that was
+// never started are drained and answered by the normal shutdown path instead
+// of being stranded in ingestChan.
+func (b *BloomSearchEngine) startWorkers() {
+	b.workersOnce.Do(func() {
+		b.wg.Add(2)
+		go b.ingestWorker()
+		go b.flushWorker()
+	})
 }
 
 // Stop gracefully shuts down the engine. Ingest requests accepted before Stop
@@ -282,6 +296,12 @@ func (b *BloomSearchEngine) Stop(ctx context.Context) error {
 	// deadline. The AfterFunc is dropped on a graceful finish, leaving
 	// flushCtx live.
 	stopAfter := context.AfterFunc(ctx, b.flushCancel)
+
+	// IngestRows and Flush accept work as soon as the engine exists, started or
+	// not. Make sure the workers are running before waiting for the state lock:
+	// they drain and answer whatever was accepted, and they unblock callers
+	// parked on a full ingest buffer (who hold the read lock Stop needs).
+	b.startWorkers()
 
 	b.stateMu.Lock()
 	b.stopped = true
